@@ -125,7 +125,8 @@ class MatrixGate(raw_types.Gate):
 
     @classmethod
     def _from_json_dict_(cls, matrix, qid_shape, name=None, **kwargs):
-        return cls(matrix=np.array(matrix), qid_shape=qid_shape, name=name)
+        # The matrix was accepted (with the tolerances or the waiver given then) when the gate was built.
+        return cls(matrix=np.array(matrix), qid_shape=qid_shape, name=name, unitary_check=False)
 
     def _qid_shape_(self) -> tuple[int, ...]:
         return self._qid_shape
